@@ -130,11 +130,11 @@ class TGen:
             if r.random() < 0.3:
                 a['placeholder'] = self.pick(['', 'ph', ' '])
             if r.random() < 0.4:
-                a['value'] = self.pick(['', 'v', '5', 'abc', 'אבג', '2020-01-01', '12:30', '١٢'])
+                a['value'] = self.pick(['', 'v', '5', 'abc', 'אבג', '2020-01-01', '12:30', '١٢', '9999-12-31', '10000-01-01', '12345-06', '10000-01-01T00:00'])
             if r.random() < 0.3:
-                a['min'] = self.pick(['0', '5', '2020-01-01', '10:00', '2020-W10', 'x', ''])
+                a['min'] = self.pick(['0', '5', '2020-01-01', '10:00', '2020-W10', 'x', '', '10000-01-01', '9999-12', '10000-02-29T12:00'])
             if r.random() < 0.3:
-                a['max'] = self.pick(['10', '3', '2021-01-01', '09:00', '2020-W20', 'x', ''])
+                a['max'] = self.pick(['10', '3', '2021-01-01', '09:00', '2020-W20', 'x', '', '10001-01-01', '10000-01', '99999-12-31T23:59'])
             if r.random() < 0.2:
                 a['dir'] = self.pick(['auto', 'ltr', 'rtl'])
         elif kind == 'button':
@@ -312,6 +312,13 @@ class TGen:
             head.append(('e', 'meta', m, []))
         if r.random() < 0.2:
             head.append(('e', 'meta', {'http-equiv': 'content-language', 'content': 'es'}, []))
+        if r.random() < 0.45:
+            # other <meta> elements around the pragma: each one is judged on its own attributes only
+            decoys = [{'name': 'viewport', 'content': 'width=device-width'}, {'charset': 'utf-8'}, {'http-equiv': 'content-language'},
+                      {'content': 'de'}, {'name': 'language', 'content': 'it'}, {'http-equiv': 'refresh', 'content': 'pt'},
+                      {'http-equiv': 'Content-Language', 'name': 'x'}, {'content': 'nl', 'name': 'x'}]
+            for _ in range(r.randint(1, 3)):
+                head.insert(r.randrange(len(head) + 1), ('e', 'meta', dict(self.pick(decoys)), []))
         ha = {}
         if r.random() < 0.4:
             ha['lang'] = self.pick(['en', 'de', ''])
